@@ -131,6 +131,28 @@ def sc_loop(B, K, cap_kind, thr_kind, dask, isolated=False, policy="fifo"):
     return o
 
 
+def sc_int_init(B, dtype, dask):
+    """real code only: explicit initial centroids given as an integer array (a natural way to
+    write them down); the trained centroids are still the means of the assigned samples"""
+    import numpy as np
+
+    km = B.mod("kmeans")
+    rs = np.random.RandomState(11)
+    X = np.vstack([rs.normal((0.3, 0.4), 0.2, (15, 2)), rs.normal((3.6, 2.7), 0.2, (17, 2))])
+    init = np.array([[0, 0], [4, 3]], dtype=dtype)
+    m = km.KMeansMachine(2, init_method=init, max_iter=1)
+    m.fit(X if not dask else B.darr(X, ((20, 12), (2,))))
+    lab = np.argmin(((X[None] - init[:, None].astype(float)) ** 2).sum(-1), axis=0)
+    o = Outcome()
+    o.equal("centroid-is-mean", m.centroids_, [X[lab == k].mean(0) for k in range(2)])
+    o.equal("criterion-is-distortion", m.average_min_distance, ((X - init.astype(float)[lab]) ** 2).sum(-1).mean())
+    return o
+
+
+def job_int_init(P):
+    P.probe_real("integer-init", sc_int_init, [dict(dtype=d, dask=k) for d in ("int64", "int32", "float32") for k in (False, True)], tries=1)
+
+
 def job_step(P, K, D, N):
     P.run("step-fit", sc_step, dict(K=K, D=D, N=N, via="fit"), validate=2)
     P.run("step-fns", sc_step, dict(K=K, D=D, N=N, via="fns"), validate=0)
@@ -145,7 +167,7 @@ def job_loop(P, K, cap_kind, thr_kind, dask, isolated, policy):
 
 
 def jobs(tier):
-    out = []
+    out = [("int-init", "job_int_init", {})]
     for (K, D, N) in SIZES[tier]:
         out.append(("step@K%dD%dN%d" % (K, D, N), "job_step", dict(K=K, D=D, N=N)))
     for (K, D, N) in SIZES[tier][:2]:
